@@ -96,6 +96,8 @@ def gen_regs(rng, view, mode):
             if rng.random() < 0.6: p.append((en, name))
             if rng.random() < 0.5: n.append((en, name))
             if t[0] == 'dict' and rng.random() < 0.5 and t[1]: n.append((en, name + '.' + t[1][0][0]))
+            if t[0] == 'array' and rng.random() < 0.6: n.append((en, name + '.' + str(rng.randrange(0, 3))))          # a path THROUGH a list index
+            if t[0] == 'array' and t[1][0] == 'dict' and t[1][1] and rng.random() < 0.6: n.append((en, '%s.%d.%s' % (name, rng.randrange(0, 2), t[1][1][0][0])))
     rng.shuffle(m); rng.shuffle(p); rng.shuffle(n)
     if mode == 'multi':
         # register some keys two or three times (the property: EVERY callback registered for a key is invoked)
